@@ -69,11 +69,13 @@ Completed(v, d) == IF v.k = "dec" /\ v.ex > -d
                      THEN IF \A x \in 1..Len(v.dg) : v.dg[x] = 0 THEN [v EXCEPT !.dg = <<0>>, !.ex = -d]   \* zero keeps one digit
                           ELSE [v EXCEPT !.dg = v.dg \o [x \in 1..(v.ex + d) |-> 0], !.ex = -d]
                      ELSE v
+\* a NaN is on neither side of any bound
+IsNaN(v) == v.k = "floatx" /\ v.s = "nan"
 SatDoc(v, c) ==
-  CASE c.c = "gt" -> NumLT(c, v)
-    [] c.c = "ge" -> NumLE(c, v)
-    [] c.c = "lt" -> NumLT(v, c)
-    [] c.c = "le" -> NumLE(v, c)
+  CASE c.c = "gt" -> ~IsNaN(v) /\ NumLT(c, v)
+    [] c.c = "ge" -> ~IsNaN(v) /\ NumLE(c, v)
+    [] c.c = "lt" -> ~IsNaN(v) /\ NumLT(v, c)
+    [] c.c = "le" -> ~IsNaN(v) /\ NumLE(v, c)
     [] c.c = "length"     -> SizeOf(v) = c.n
     [] c.c = "max_length" -> SizeOf(v) <= c.n
     [] c.c = "min_length" -> SizeOf(v) >= c.n
